@@ -333,6 +333,7 @@ class Node(object):
                 ind = self.interrupted_individuals[0]
                 self.interrupted_individuals.remove(ind)
                 self.number_interrupted_individuals -= 1
+                ind.interrupted = False
             else:
                 ind = self.choose_next_customer()
             if ind is not None:
